@@ -11,6 +11,7 @@ import (
 	"fmt"
 	"os"
 	"runtime/debug"
+	"strconv"
 	"strings"
 )
 
@@ -92,13 +93,35 @@ func main() {
 		sc.Buffer(make([]byte, 1<<20), 1<<26)
 		w := bufio.NewWriterSize(os.Stdout, 1<<20)
 		flushEach := os.Getenv("HARNESS_FLUSH") == "1" // set by the check when a shard timed out: names the op that hangs
+		// HARNESS_PRELUDE=n: the first n lines are the cross-talk history; the shared state of the library is
+		// digested when the property's own ops begin and again at the end (exit status 9 + a line on stderr if it changed)
+		prelude, _ := strconv.Atoi(os.Getenv("HARNESS_PRELUDE"))
+		var before map[string]string
+		line := 0
 		for sc.Scan() {
+			if line == prelude {
+				before = globalsDigest()
+			}
+			line++
 			fmt.Fprintln(w, execOp(sc.Text()))
 			if flushEach {
 				w.Flush()
 			}
 		}
 		w.Flush()
+		if before != nil {
+			after := globalsDigest()
+			changed := ""
+			for k, v := range before {
+				if after[k] != v {
+					changed += " " + k
+				}
+			}
+			if changed != "" {
+				fmt.Fprintln(os.Stderr, "GLOBALS-CHANGED:"+changed)
+				os.Exit(9)
+			}
+		}
 	case "nets":
 		fmt.Println(netsString())
 	case "mem":
